@@ -218,6 +218,13 @@ PROPS = {
         assumptions=[ASYNC, ENGINE,
             '"returns only after the peer\'s answer" is decided as a safety clause (detach / close / end_session / wait_for_remote_end return Ok only once the peer\'s detach / End has been taken from the incoming channel; units LINKDETACH, SESSENG); "answered no later than the next operation" and "within bounded time" are liveness statements and are not decided',
             'Drop impls racing with the engine are not decided']),
+    'C14': dict(
+        units=['CONNENG', 'SESSENG', 'LINK', 'LINKFLOW', 'SENDSPLIT', 'RECVLOOP'], kani=[], level='proof',
+        title='Failure propagation (the safety half: WHICH error a stopped handle reports; stop reason published before the channels close)',
+        assumptions=[
+            'DECIDED (necessary conditions, per function): (a) the event loops of the connection and session engines publish the stop reason BEFORE they close the channels through which handles, sessions and links learn of the stop (an order obligation at the close calls), and that reason is the peer\'s Close / End error, the peer\'s plain close / end, or the connection\'s fate, as derived from the loop\'s outcome (tails of ConnectionEngine::event_loop and SessionEngine::event_loop, rule R32); (b) the result handed to the ConnectionHandle / SessionHandle is the peer\'s error when the peer supplied one; (c) every link operation under contract that finds the channel to its session closed (send_transfer, send_flow, dispose, dispose_consecutive, send_detach, recv_inner) fails with SessionStopped(reason read from the published cell) -- at once, without waiting -- and with IllegalState only when no reason was recorded',
+            'NOT DECIDED (the headline of C14): that no call hangs and that every operation completes within bounded time; that all engine tasks terminate; behaviour at transport cut points (every byte offset x every pending operation x schedules of the four tokio tasks); that a oneshot / mpsc receiver really observes the closure (tokio); DeliveryFut::poll and the public handle wrappers (not under contract); that the stop-reason cells are the SAME cells the handles read (Arc sharing is erased, R8)',
+            ASYNC, ENGINE]),
     'C16': dict(
         units=['REASM', 'SENDSPLIT'], kani=[], level='proof', title='Cancel safety (custody obligations at the cancellation points of recv and send)',
         assumptions=[
@@ -253,6 +260,5 @@ for _p, _c in PROPS.items():
     _c.setdefault('level_note', 'Trusted: Verus/Z3, the extractor and its logged rewrite rules, prelude stand-ins for std/third-party containers and leaf types (listed in evidence.coverage.trusted_base); machine integers are machine integers; scheduling/async interleavings are outside the proof.')
 
 NOT_APPLICABLE = {
-    'C14': 'liveness over transport cut points x pending operations x schedules of four tokio tasks; neither Verus nor Kani models tasks, wake-ups or channel closure, and no per-function contract decides any sentence of it',
 }
 HOOK_COMMITS = ['50c72688828bb1ba5a3731d0192bb151612b610c', 'bf327aa51af9b76a87183aedae6f2a001cbfe489', '51493c7968daf9e3e5d2f7edfd0ffd63d8233deb']
